@@ -16,7 +16,11 @@ DRV = 'drv_c16'
 
 REGISTRY = {
     'id': 'C16',
-    'text': 'Lean theorems about the executable model of find_indices / is_subsequence / find_subsequence_indices / coverage / '
+    'text': 'Mechanical tie for the pure pieces of coverage / percent_coverage: harness/translate_covcore.py reads the CURRENT '
+            'sequence_funcs.py with ast and emits Generated/CoverageCorePy.lean (the two slice assignments and the initial array of '
+            'coverage; the literal accumulate flag, zero guard and quotient of percent_coverage); Props/C16Gen proves them equal to the '
+            'hand model and restates coverage_iff, the accumulate count and the [0,1] bound for the generated definitions; a piece outside '
+            'the subset is reported as untranslated and stays tied by correspondence. Lean theorems about the executable model of find_indices / is_subsequence / find_subsequence_indices / coverage / '
             'percent_coverage: an offset is returned iff the residues occur there and slice-and-compare accepts it, offsets are '
             'strictly increasing (all overlapping occurrences present), with ignore_mods the result is plain substring search, '
             'coverage marks position j iff an occurrence contains it and with accumulate counts them, percent coverage is the '
@@ -24,7 +28,8 @@ REGISTRY = {
             'correspondence over all targets of length 0..7 (quick) / 0..9 (thorough) on {A,K} x all queries of length 1..4 and '
             'random modified targets up to length 40 with queries cut from them or perturbed; the implementation is also checked '
             'against an independent Python reference (substring scan, per-residue modification multisets)',
-    'note': 'trusted: Lean kernel, axioms propext/Classical.choice/Quot.sound, the correspondence harness; regex.finditer with a '
+    'note': 'trusted: Lean kernel, axioms propext/Classical.choice/Quot.sound, the correspondence harness, the subset reader '
+            'translate_covcore.py (output committed and diffable; the loops of coverage and everything in the search stay hand-modelled); regex.finditer with a '
             'literal pattern is modelled as a naive scan (compared directly with regex on every enumerated pair); slice and == are '
             'the shared models of C11/C20; the unordered test is modelled end to end (condense_static_mods of C12, split of C11, '
             'residues counted modulo ==) and proved equal to multiset inclusion of modified residues',
@@ -252,8 +257,13 @@ def run(chk):
     from peptacular.sequence import sequence_funcs as sf
     tier = chk.tier
     rng = chk.rng
-    chk.lean_build(['PeptVerif.Props.C16'], DRV)
+    # sequence_funcs.py -> Generated/CoverageCorePy.lean + Props/C16Gen.lean (equalities with the hand model), regenerated on change
+    from .. import translate_covcore
+    translate_covcore.translate(chk)
+    chk.lean_build(['PeptVerif.Props.C16', 'PeptVerif.Props.C16Gen'], DRV)
     chk.trusted += [
+        'harness/translate_covcore.py: the reading of `A[a:b] = [x + c for x in A[a:b]]`, `A[a:b] = [c] * n`, `[c] * sequence_length(..)`, '
+        '`len`, `sum`, `==`, `/` and the literal accumulate flag into List.take/drop/map/replicate/sum over Nat and a Rat quotient',
         'modelled (Model/Search.lean): ProFormaAnnotation.is_subsequence / find_indices, find_subsequence_indices, '
         'is_subsequence (ordered; unordered = _count_residue_keys on the pieces of condense_static_mods().split(), keys compared '
         'as == does), coverage, percent_coverage; slice, split and __eq__ are Model/Reorder.lean and Model/AnnotEq.lean, '
@@ -488,7 +498,8 @@ def run(chk):
 
     c17_reach.record(chk, reach)
     if tier == 'thorough':
-        chk.leanchecker(['PeptVerif.Props.C16', 'PeptVerif.Lemmas.Search', 'PeptVerif.Model.Search'])
+        chk.leanchecker(['PeptVerif.Props.C16', 'PeptVerif.Props.C16Gen', 'PeptVerif.Generated.CoverageCorePy',
+                         'PeptVerif.Lemmas.Search', 'PeptVerif.Model.Search'])
     return chk.finish(classify)
 
 
